@@ -248,9 +248,27 @@ impl SimDriver for Driver {
     }
 }
 
+thread_local! {
+    /// When set, every driver installed on this thread records its decisions and hands them to
+    /// `TRACES` when it is uninstalled (used by the minimiser to turn a seeded policy into an
+    /// explicit decision list).
+    static RECORD_ALL: std::cell::Cell<bool> = std::cell::Cell::new(false);
+    static TRACES: RefCell<Vec<(Vec<Option<Vec<u32>>>, Vec<u64>)>> = RefCell::new(Vec::new());
+}
+
+pub fn set_record_all(on: bool) {
+    RECORD_ALL.with(|r| r.set(on));
+    TRACES.with(|t| t.borrow_mut().clear());
+}
+
+pub fn take_traces() -> Vec<(Vec<Option<Vec<u32>>>, Vec<u64>)> {
+    TRACES.with(|t| std::mem::take(&mut *t.borrow_mut()))
+}
+
 impl Handle {
     /// Install a fresh driver for `cfg` on this thread.
     pub fn install(cfg: &SimCfg, record: bool) -> Handle {
+        let record = record || RECORD_ALL.with(|r| r.get());
         let inner = Rc::new(RefCell::new(Inner {
             cfg: cfg.clone(),
             rng: Rng::new(mix(&[cfg.seed, 0xF4E5])),
@@ -284,6 +302,9 @@ impl Handle {
     pub fn finish(self) -> Stats {
         verif_sim::uninstall();
         let inner = self.0.borrow();
+        if RECORD_ALL.with(|r| r.get()) {
+            TRACES.with(|t| t.borrow_mut().push((inner.stats.orders.clone(), inner.stats.yields.clone())));
+        }
         inner.stats.clone()
     }
 }
